@@ -1,6 +1,9 @@
-(** C12, usage line: every required positional is mentioned (whether hidden or not -- hence every
-    required visible one), for every built command whose positional indices identify the argument. *)
-From ClapModel Require Import Base.Bytes Base.Machine Parse.Cmd Gen.HelpTables Help.UsageModel Help.HelpModel Help.HelpProofs.
+(** C12, usage line: every required argument is mentioned (whether hidden or not -- hence every
+    required visible one): a positional by a piece of its own, an option by its rendered text, a member of
+    a listed group inside the [<a|b>] piece of that group; for every built command whose ids are distinct
+    and whose positional indices identify the argument.  Round 3: groups and [requires]. *)
+From ClapModel Require Import Base.Bytes Base.Machine Parse.Cmd Parse.Matcher Parse.Errors Parse.Validator ParseProofs.Relations.
+From ClapModel Require Import Gen.HelpTables Help.UsageModel Help.HelpModel Help.HelpReqs Help.HelpProofs.
 From Coq Require Import Lia.
 From RecordUpdate Require Import RecordSet.
 Import RecordSetNotations.
@@ -33,41 +36,72 @@ Proof.
   - exists s. rewrite vec_get_set_other; [exact Hs|]. intros H. apply E. apply N2Nat.inj. exact H.
 Qed.
 
+Lemma h_find_nodup c a : NoDup (map ha_id (hc_args c)) -> In a (hc_args c) -> h_find c (ha_id a) = Some a.
+Proof.
+  unfold h_find. induction (hc_args c) as [|x t IH]; intros Hnd Ha; [destruct Ha|].
+  cbn [map] in Hnd. inversion Hnd as [|? ? Hx Ht]; subst. cbn [find]. destruct Ha as [Ha|Ha].
+  - subst x. rewrite beq_refl. reflexivity.
+  - destruct (beq (ha_id x) (ha_id a)) eqn:E; [|apply IH; assumption].
+    apply beq_eq in E. exfalso. apply Hx. rewrite E. apply in_map. exact Ha.
+Qed.
+
 Section U.
 Variable c : hcmd.
 Variable a : harg.
-Variable i : N.
-Hypothesis Hidx : ha_index a = Some i.
+Hypothesis Hnd : NoDup (map ha_id (hc_args c)).
+Hypothesis Ha : In a (hc_args c).
 (** the index identifies the argument among the arguments of the command *)
-Hypothesis Huniq : forall b, In b (hc_args c) -> ha_index b = Some i -> ha_id b = ha_id a.
+Hypothesis Huniq : forall b i, In b (hc_args c) -> ha_index b = Some i -> ha_index a = Some i -> ha_id b = ha_id a.
 
-Lemma req_split_slot reqs : forall opts poss r,
-  (forall b, In b reqs -> In b (hc_args c)) ->
-  (slot_has poss i (ha_id a) \/ In a reqs) ->
-  req_split reqs opts poss = Some r -> slot_has (snd r) i (ha_id a).
+(** what "the argument is in the collected pieces" means: its slot when it has an index, its text otherwise *)
+Definition has_piece (opts : list (bytes * bytes)) (poss : list (option (bytes * bytes))) : Prop :=
+  match ha_index a with
+  | Some i => slot_has poss i (ha_id a)
+  | None => forall s, stylized a (Some true) = Some s -> In s (map snd opts)
+  end.
+
+Lemma req_split_has members reqs : forall opts poss r,
+  mem_id (ha_id a) members = false ->
+  (has_piece opts poss \/ In (ha_id a) reqs) ->
+  req_split c false members reqs opts poss = Some r -> has_piece (fst r) (snd r).
 Proof.
-  induction reqs as [|b t IH]; intros opts poss r Hsub Hs H; cbn [req_split] in H.
+  induction reqs as [|req t IH]; intros opts poss r Hm Hs H; cbn [req_split] in H.
   - inversion H; subst r. destruct Hs as [Hs|[]]. exact Hs.
-  - destruct (stylized b (Some true)) as [s|]; [|discriminate].
-    assert (Ht : forall x, In x t -> In x (hc_args c)) by (intros x Hx; apply Hsub; right; exact Hx).
-    destruct (ha_index b) as [j|] eqn:Ej.
-    + apply (IH _ _ _ Ht) in H; [exact H|].
-      destruct Hs as [Hs|[Hs|Hs]].
-      * left. apply slot_has_set; [exact Hs|]. intros E. subst j. cbn [fst]. apply Huniq; [apply Hsub; left; reflexivity|exact Ej].
-      * subst b. rewrite Hidx in Ej. inversion Ej; subst j. left. exists s. apply vec_get_set_same.
-      * right. exact Hs.
-    + apply (IH _ _ _ Ht) in H; [exact H|].
-      destruct Hs as [Hs|[Hs|Hs]]; [left; exact Hs| |right; exact Hs].
-      subst b. rewrite Hidx in Ej. discriminate.
+  - destruct (h_find c req) as [b|] eqn:Eb.
+    + destruct (h_find_some _ _ _ Eb) as [Hid Hb].
+      assert (Hba : req = ha_id a -> b = a).
+      { intros E. rewrite E in Eb. rewrite (h_find_nodup c a Hnd Ha) in Eb. inversion Eb. reflexivity. }
+      destruct (mem_id (ha_id b) members) eqn:Emb.
+      * apply (IH _ _ _ Hm) in H; [exact H|]. destruct Hs as [Hs|[Hs|Hs]]; [left; exact Hs| |right; exact Hs].
+        rewrite (Hba Hs) in Emb. rewrite Emb in Hm. discriminate.
+      * cbn [negb] in H. destruct (stylized b (Some true)) as [s|] eqn:Es; [|discriminate].
+        destruct (ha_index b) as [j|] eqn:Ej.
+        -- apply (IH _ _ _ Hm) in H; [exact H|]. unfold has_piece in *.
+           destruct Hs as [Hs|[Hs|Hs]]; [| |right; exact Hs].
+           ++ left. destruct (ha_index a) as [i|] eqn:Ei; [|exact Hs].
+              apply slot_has_set; [exact Hs|]. intros E. subst j. cbn [fst]. apply (Huniq b i Hb Ej eq_refl).
+           ++ pose proof (Hba Hs) as E. subst b. left. rewrite Ej. exists s. apply vec_get_set_same.
+        -- apply (IH _ _ _ Hm) in H; [exact H|]. unfold has_piece in *.
+           destruct Hs as [Hs|[Hs|Hs]]; [| |right; exact Hs].
+           ++ left. destruct (ha_index a) as [i|] eqn:Ei; [exact Hs|].
+              intros s' Hs'. specialize (Hs s' Hs'). apply in_map_iff in Hs. destruct Hs as [y [Ey Hy]].
+              apply in_map_iff. exists y. split; [exact Ey|apply flatset_insert_keeps; exact Hy].
+           ++ pose proof (Hba Hs) as E. subst b. left. rewrite Ej. intros s' Hs'.
+              rewrite Es in Hs'. inversion Hs'; subst s'. apply (flatset_insert_text (ha_id a, s)).
+    + destruct (is_some (find_group (pcmd_of c) req)); [|discriminate].
+      apply (IH _ _ _ Hm) in H; [exact H|]. destruct Hs as [Hs|[Hs|Hs]]; [left; exact Hs| |right; exact Hs].
+      rewrite Hs in Eb. rewrite (h_find_nodup c a Hnd Ha) in Eb. discriminate.
 Qed.
 
-Lemma usage_positionals_slot ps : forall poss r,
-  slot_has poss i (ha_id a) -> usage_positionals ps poss = Some r -> slot_has r i (ha_id a).
+Lemma usage_positionals_slot members i ps : forall poss r,
+  slot_has poss i (ha_id a) -> usage_positionals false members ps poss = Some r -> slot_has r i (ha_id a).
 Proof.
   induction ps as [|p t IH]; intros poss r Hs H; cbn [usage_positionals] in H.
   - inversion H; subst r. exact Hs.
   - destruct (ha_hide p); [apply (IH _ _ Hs H)|].
+    destruct (mem_id (ha_id p) members); [apply (IH _ _ Hs H)|].
     destruct (ha_index p) as [j|]; [|discriminate].
+    rewrite andb_false_r in H.
     destruct (vec_get (N.to_nat j) poss) as [[pid styled]|] eqn:G.
     + destruct (ha_last p); [|apply (IH _ _ Hs H)].
       apply (IH _ _) in H; [exact H|]. apply slot_has_set; [exact Hs|].
@@ -77,64 +111,170 @@ Proof.
       apply (IH _ _) in H; [exact H|]. apply slot_has_set; [exact Hs|]. intros E. contradiction.
 Qed.
 
-Theorem usage_mentions_required_positional items :
-  usage_arg_items c = Some items -> In a (hc_args c) -> ha_required a = true ->
-  In (ha_id a) (map fst items).
+(** C12_usage_mentions_required *)
+Theorem usage_mentions_required items :
+  args_ok c -> refs_ok c = true -> usage_arg_items c false = Some items -> ha_required a = true ->
+  if mem_id (ha_id a) (usage_members c)
+  then exists g gm txt, In g (usage_reqs c) /\ unroll_args_in_group (pcmd_of c) g = Some gm /\ In (ha_id a) gm
+                        /\ format_group c g = Some txt /\ In txt (map snd items)
+  else match ha_index a with
+       | Some _ => In (ha_id a) (map fst items)
+       | None => forall s, stylized a (Some true) = Some s -> In s (map snd items)
+       end.
 Proof.
-  unfold usage_arg_items. intros H Ha Hr.
-  destruct (req_split (required_args c) [] []) as [sp|] eqn:E1; [|discriminate].
-  destruct (usage_positionals _ (snd sp)) as [poss|] eqn:E2; [|discriminate].
-  inversion H; subst items.
-  assert (H1 : slot_has (snd sp) i (ha_id a)).
-  { apply (req_split_slot (required_args c) [] [] sp); [| |exact E1].
-    - intros b Hb. unfold required_args in Hb. apply filter_In in Hb. apply Hb.
-    - right. unfold required_args. apply filter_In. split; assumption. }
-  destruct (usage_positionals_slot _ _ _ H1 E2) as [s Hs].
-  apply vec_get_in in Hs. rewrite map_app. apply in_or_app. right.
-  apply (in_map fst) in Hs. exact Hs.
+  intros Hok Hrefs H Hr. unfold usage_arg_items in H. rewrite usage_reqs_eq in H.
+  assert (W : rel_wf (pcmd_of c) = true).
+  { unfold refs_ok in Hrefs. apply andb_true_iff in Hrefs. destruct Hrefs as [X _]. apply andb_true_iff in X. apply X. }
+  assert (Hex : forall x, In x (usage_reqs c) -> id_exists (pcmd_of c) x = true) by (intros x; apply usage_reqs_exist; exact Hrefs).
+  destruct (req_groups_spec c (usage_reqs c) [] [] Hok W Hex) as [gm [Hgm [_ [_ [G3 _]]]]]. rewrite Hgm in H.
+  rewrite (usage_members_eq c gm Hgm).
+  destruct (req_split c false (snd gm) (usage_reqs c) [] []) as [sp|] eqn:E1; [|discriminate].
+  destruct (usage_positionals false (snd gm) _ (snd sp)) as [poss|] eqn:E2; [|discriminate].
+  inversion H; subst items. cbn [negb]. clear H.
+  destruct (mem_id (ha_id a) (snd gm)) eqn:Em.
+  - apply mem_id_In in Em. destruct (G3 _ Em) as [[]|[g [gm' [txt [H1 [H2 [H3 [H4 H5]]]]]]]].
+    exists g, gm', txt. repeat (split; [assumption|]).
+    rewrite !map_app. apply in_or_app. left. apply in_or_app. right. exact H5.
+  - assert (Hp : has_piece (fst sp) (snd sp)).
+    { apply (req_split_has (snd gm) (usage_reqs c) [] [] sp Em); [|exact E1].
+      right. apply required_in_usage_reqs; assumption. }
+    unfold has_piece in Hp. destruct (ha_index a) as [i|] eqn:Ei.
+    + destruct (usage_positionals_slot _ _ _ _ _ Hp E2) as [s Hs].
+      apply vec_get_in in Hs. rewrite map_app. apply in_or_app. right.
+      apply (in_map fst) in Hs. exact Hs.
+    + intros s Hs. rewrite !map_app. apply in_or_app. left. apply in_or_app. left. apply Hp. exact Hs.
 Qed.
 
 End U.
 
-(** the statement for positionals of a built command: [arg_ok] gives the index *)
+(** the statement for positionals (round 2), now for commands with groups: a required positional that is
+    not a member of a listed group has a piece of its own *)
 Theorem usage_lists_required_positionals c items a :
-  args_ok c -> usage_arg_items c = Some items ->
+  NoDup (map ha_id (hc_args c)) -> args_ok c -> refs_ok c = true -> usage_arg_items c false = Some items ->
   In a (hc_args c) -> ha_is_positional a = true -> ha_required a = true ->
+  mem_id (ha_id a) (usage_members c) = false ->
   (forall b, In b (hc_args c) -> ha_index b = ha_index a -> ha_id b = ha_id a) ->
   In (ha_id a) (map fst items).
 Proof.
-  intros Hok H Ha Hp Hr Hu. destruct (positional_index a (Hok a Ha) Hp) as [i Hi].
-  assert (Hq : forall b, In b (hc_args c) -> ha_index b = Some i -> ha_id b = ha_id a)
-    by (intros b Hb Eb; apply Hu; [exact Hb|]; rewrite Hi; exact Eb).
-  exact (usage_mentions_required_positional c a i Hi Hq items H Ha Hr).
+  intros Hnd Hok Hrefs H Ha Hp Hr Hm Hu. destruct (positional_index a (Hok a Ha) Hp) as [i Hi].
+  assert (Hq : forall b j, In b (hc_args c) -> ha_index b = Some j -> ha_index a = Some j -> ha_id b = ha_id a)
+    by (intros b j Hb Eb Ea; apply Hu; [exact Hb|]; rewrite Ea; exact Eb).
+  pose proof (usage_mentions_required c a Hnd Ha Hq items Hok Hrefs H Hr) as X.
+  rewrite Hm, Hi in X. exact X.
 Qed.
-
-(** non-vacuity on [ex_cmd] (HelpProofs.v): its required positional [f] is in the usage line *)
-Definition ex_built : hcmd := Eval vm_compute in h_build_self ex_cmd.
-Definition ex_f : harg := Eval vm_compute in nth 3 (hc_args ex_built) (harg_new [] ASet).
-Lemma ex_built_eq : h_build_self ex_cmd = ex_built.
-Proof. vm_compute. reflexivity. Qed.
 
 Lemma uniq_of_bool c a :
   forallb (fun b => match ha_index b, ha_index a with
                     | Some x, Some y => implb (x =? y) (beq (ha_id b) (ha_id a))
-                    | None, None => beq (ha_id b) (ha_id a)
                     | _, _ => true end) (hc_args c) = true ->
-  forall b, In b (hc_args c) -> ha_index b = ha_index a -> ha_id b = ha_id a.
+  forall b i, In b (hc_args c) -> ha_index b = Some i -> ha_index a = Some i -> ha_id b = ha_id a.
 Proof.
-  intros H b Hb E. rewrite forallb_forall in H. specialize (H b Hb). rewrite E in H.
-  destruct (ha_index a) as [y|]; [rewrite N.eqb_refl in H; cbn [implb] in H|]; apply beq_eq; exact H.
+  intros H b i Hb E Ea. rewrite forallb_forall in H. specialize (H b Hb). rewrite E, Ea in H.
+  rewrite N.eqb_refl in H. cbn [implb] in H. apply beq_eq; exact H.
 Qed.
 
-Example ex_cmd_usage :
-  args_ok ex_built /\ usage_arg_items ex_built = Some [([102], [60; 102; 62])] /\ In ex_f (hc_args ex_built)
-  /\ ha_is_positional ex_f = true /\ ha_required ex_f = true
-  /\ (forall b, In b (hc_args ex_built) -> ha_index b = ha_index ex_f -> ha_id b = ha_id ex_f).
+(** ---- non-vacuity: a command with a required group [<--a|--b <b>>], a required option that [requires]
+    an optional one, a hidden optional option, a required positional and an optional hidden [last]
+    positional (the branch a seeded change made visible as [[-- <l>...]]) ---- *)
+Definition rq_cmd : hcmd :=
+  (cmd_with (hcmd_new [112])
+    [ (harg_new [97] ASetTrue) <| ha_long := Some [97] |>;
+      (harg_new [98] ASet) <| ha_long := Some [98] |>;
+      (harg_new [114] ASet) <| ha_long := Some [114] |> <| ha_required := true |> <| ha_requires := [(PIsPresent, [120])] |>;
+      (harg_new [120] ASetTrue) <| ha_long := Some [120] |>;
+      (harg_new [122] ASetTrue) <| ha_long := Some [122] |> <| ha_hide := true |>;
+      (harg_new [102] ASet) <| ha_required := true |>;
+      (harg_new [108] AAppend) <| ha_last := true |> <| ha_hide := true |> <| ha_num := Some r_full |> ]
+    [])
+  <| hc_groups := [ (group_new [103]) <| g_args := [[97]; [98]] |> <| g_required := true |> ] |>.
+Definition rq_built : hcmd := Eval vm_compute in h_build_self rq_cmd.
+Definition rq_arg (n : nat) : harg := nth n (hc_args rq_built) (harg_new [] ASet).
+
+Example rq_usage :
+  usage_pieces rq_built
+  = Some [[112]; s_options_tag; [45; 45; 120]; [45; 45; 114; 32; 60; 114; 62];
+          [60; 45; 45; 97; 124; 45; 45; 98; 32; 60; 98; 62; 62]; [60; 102; 62]].
+Proof. vm_compute. reflexivity. Qed.
+
+Example rq_hyps :
+  NoDup (map ha_id (hc_args rq_built)) /\ args_ok rq_built /\ refs_ok rq_built = true
+  /\ (exists items, usage_arg_items rq_built false = Some items)
+  (* [--z]: hidden, optional, named by no rule *)
+  /\ In (rq_arg 4) (hc_args rq_built) /\ ha_hide (rq_arg 4) = true /\ req_srcb rq_built (ha_id (rq_arg 4)) = false
+  /\ find_group (pcmd_of rq_built) (ha_id (rq_arg 4)) = None
+  (* [l]: the optional hidden [last] positional *)
+  /\ In (rq_arg 6) (hc_args rq_built) /\ ha_hide (rq_arg 6) = true /\ ha_last (rq_arg 6) = true
+  /\ req_srcb rq_built (ha_id (rq_arg 6)) = false /\ find_group (pcmd_of rq_built) (ha_id (rq_arg 6)) = None
+  (* [--r] and [f]: required, not members; [--a]: a member of the listed group *)
+  /\ ha_required (rq_arg 2) = true /\ ha_required (rq_arg 5) = true
+  /\ mem_id (ha_id (rq_arg 2)) (usage_members rq_built) = false
+  /\ mem_id (ha_id (rq_arg 0)) (usage_members rq_built) = true
+  /\ (forall b i, In b (hc_args rq_built) -> ha_index b = Some i -> ha_index (rq_arg 5) = Some i -> ha_id b = ha_id (rq_arg 5)).
 Proof.
-  split.
-  { rewrite <- ex_built_eq. apply h_build_self_args_ok; [reflexivity|]. apply ex_cmd_hyps. }
+  split; [vm_compute; repeat constructor; cbn; intuition discriminate|].
+  split; [apply args_okb_sound; vm_compute; reflexivity|].
   split; [vm_compute; reflexivity|].
-  split; [right; right; right; left; reflexivity|].
-  split; [reflexivity|]. split; [reflexivity|].
+  split; [eexists; vm_compute; reflexivity|].
+  split; [vm_compute; tauto|]. split; [reflexivity|]. split; [vm_compute; reflexivity|]. split; [vm_compute; reflexivity|].
+  split; [vm_compute; tauto|]. split; [reflexivity|]. split; [reflexivity|]. split; [vm_compute; reflexivity|].
+  split; [vm_compute; reflexivity|].
+  split; [reflexivity|]. split; [reflexivity|]. split; [vm_compute; reflexivity|]. split; [vm_compute; reflexivity|].
   apply uniq_of_bool. vm_compute. reflexivity.
+Qed.
+
+(** observation: [format_group] prints every member of a listed group, hidden or not -- a hidden optional
+    member of a required group appears in the usage line as [<--a|--z>] *)
+Definition hg_cmd : hcmd :=
+  (cmd_with (hcmd_new [112])
+    [ (harg_new [97] ASetTrue) <| ha_long := Some [97] |>;
+      (harg_new [122] ASetTrue) <| ha_long := Some [122] |> <| ha_hide := true |> ]
+    [])
+  <| hc_groups := [ (group_new [103]) <| g_args := [[97]; [122]] |> <| g_required := true |> ] |>.
+Example hidden_group_member_shown :
+  exists c a, In a (hc_args c) /\ ha_hide a = true /\ ha_required a = false /\ ha_long a = Some [122]
+    /\ refs_ok (h_build_self c) = true
+    /\ usage_pieces (h_build_self c) = Some [[112]; [60; 45; 45; 97; 124; 45; 45; 122; 62]].
+Proof.
+  exists hg_cmd, (nth 1 (hc_args hg_cmd) (harg_new [] ASet)).
+  split; [vm_compute; tauto|]. repeat split; vm_compute; reflexivity.
+Qed.
+
+(** the usage forms under [subcommand_negates_reqs] / [args_conflicts_with_subcommands] /
+    [subcommand_required] with a [subcommand_value_name], computed *)
+Definition sf_cmd (neg conf req : bool) : hcmd :=
+  (cmd_with (hcmd_new [112])
+    [ (harg_new [114] ASet) <| ha_long := Some [114] |> <| ha_required := true |>;
+      (harg_new [102] ASet) <| ha_required := true |> ]
+    [ hcmd_new [115] ])
+  <| hc_negates_reqs := neg |> <| hc_args_conflicts := conf |> <| hc_sub_required := req |>
+  <| hc_sub_value_name := Some [86] |>.
+Example sf_usage :
+  usage_pieces (h_build_self (sf_cmd false false false))
+    = Some [[112]; [45; 45; 114; 32; 60; 114; 62]; [60; 102; 62]; [91; 86; 93]]
+  /\ usage_pieces (h_build_self (sf_cmd false false true))
+    = Some [[112]; [45; 45; 114; 32; 60; 114; 62]; [60; 102; 62]; [60; 86; 62]]
+  /\ usage_pieces (h_build_self (sf_cmd true false false))
+    = Some [[112]; [45; 45; 114; 32; 60; 114; 62]; [60; 102; 62]; s_usage_sep; [112]; [91; 102; 93]; [60; 86; 62]]
+  /\ usage_pieces (h_build_self (sf_cmd false true false))
+    = Some [[112]; [45; 45; 114; 32; 60; 114; 62]; [60; 102; 62]; s_usage_sep; [112]; [60; 86; 62]].
+Proof. repeat split; vm_compute; reflexivity. Qed.
+
+(** the [OPTIONS] tag, declaratively: it is written iff some argument is not positional, is neither [--help] /
+    [--version] nor a Help / Version action, is not hidden, not required and not a member of a required group *)
+Theorem options_tag_iff c :
+  needs_options_tag c = true <->
+  exists f, In f (hc_args c) /\ ha_is_positional f = false
+    /\ opt_is (ha_long f) s_help = false /\ opt_is (ha_long f) s_version = false
+    /\ is_help_or_version_action (ha_action f) = false
+    /\ ha_hide f = false /\ ha_required f = false /\ in_required_group c f = false.
+Proof.
+  unfold needs_options_tag. rewrite existsb_exists. split.
+  - intros [f [Hf H]]. apply filter_In in Hf. destruct Hf as [Hin Hp].
+    apply andb_true_iff in H. destruct H as [H H5]. apply andb_true_iff in H. destruct H as [H H4].
+    apply andb_true_iff in H. destruct H as [H H3]. apply andb_true_iff in H. destruct H as [H1 H2].
+    apply negb_true_iff in H1, H2, H3, H4, H5, Hp. apply orb_false_iff in H1. destruct H1 as [H1a H1b].
+    exists f. repeat (split; [assumption|]). assumption.
+  - intros [f [Hin [Hp [H1a [H1b [H2 [H3 [H4 H5]]]]]]]]. exists f. split.
+    + apply filter_In. split; [exact Hin|]. rewrite Hp. reflexivity.
+    + rewrite H1a, H1b, H2, H3, H4, H5. reflexivity.
 Qed.
